@@ -658,6 +658,8 @@ class _Eval:
         f = e.func
         args = tuple(self.expr(a) for a in e.args)
         kws = tuple((k.arg, self.expr(k.value)) for k in e.keywords)
+        # canonical order of named keywords (their order in the source does not matter to the callee); **mappings stay last
+        kws = tuple(sorted((kv for kv in kws if kv[0] is not None), key=lambda kv: kv[0])) + tuple(kv for kv in kws if kv[0] is None)
         if (isinstance(f, ast.Attribute) and isinstance(f.value, ast.Call) and isinstance(f.value.func, ast.Name)
                 and f.value.func.id == "super"):
             ft = ("attr", ("global", "super"), f.attr)
